@@ -552,91 +552,556 @@ Proof.
 Qed.
 
 (* ---------- sequences of arrivals ---------- *)
-Definition abs_state := (list coff * nat)%type.
-Definition abs_run (md : Z) (n : nat) (l : list (commit * Z)) : abs_state :=
-  fold_left (fun (s : abs_state) (cl : commit * Z) =>
-               let '(cs', b', _) := abs_step md (fst s) (snd s) (fst cl) (snd cl) in (cs', b')) l ([], n).
+(* every commit reaching a partition, with the lag the caller would attach if it is appended *)
+Definition ring_run (md : Z) (n : nat) (l : list (commit * Z)) : ring :=
+  fold_left (fun r cl => fst (ring_step md r (fst cl) (snd cl))) l (new_ring n).
 
+Definition abs_state := (list coff * nat)%type.
+Definition abs_next (md : Z) (s : abs_state) (cl : commit * Z) : abs_state :=
+  let '(cs', b', _) := abs_step md (fst s) (snd s) (fst cl) (snd cl) in (cs', b').
+Definition abs_run (md : Z) (n : nat) (l : list (commit * Z)) : abs_state := fold_left (abs_next md) l ([], n).
+Definition conc (s : abs_state) : ring := map Some (fst s) ++ repeat None (snd s).
+
+Lemma ring_run_snoc md n l cl :
+  ring_run md n (l ++ [cl]) = fst (ring_step md (ring_run md n l) (fst cl) (snd cl)).
+Proof. unfold ring_run. rewrite fold_left_app. reflexivity. Qed.
+
+Lemma abs_run_snoc md n l cl : abs_run md n (l ++ [cl]) = abs_next md (abs_run md n l) cl.
+Proof. unfold abs_run. rewrite fold_left_app. reflexivity. Qed.
+
+Lemma abs_next_shape md s cl :
+  desc (fst s) -> desc (fst (abs_next md s cl)) /\
+  (length (fst (abs_next md s cl)) + snd (abs_next md s cl) = length (fst s) + snd s)%nat.
+Proof.
+  intros Hd. unfold abs_next. destruct (abs_step md (fst s) (snd s) (fst cl) (snd cl)) as [[cs' b'] a0] eqn:E.
+  cbn [fst snd]. eapply abs_step_shape; eauto.
+Qed.
+
+(* the ring reached by any sequence of arrivals has the documented shape, and is what the abstract run says *)
+Theorem run_refines md n l :
+  desc (fst (abs_run md n l)) /\ (length (fst (abs_run md n l)) + snd (abs_run md n l) = n)%nat /\
+  ring_run md n l = conc (abs_run md n l).
+Proof.
+  induction l as [|cl l IH] using rev_ind.
+  - cbn. repeat split; constructor.
+  - destruct IH as (Hd & Hlen & Heq). rewrite ring_run_snoc, abs_run_snoc, Heq.
+    destruct (abs_next_shape md (abs_run md n l) cl Hd) as [Hd' Hlen'].
+    repeat split; [exact Hd'|lia|].
+    unfold conc at 1. rewrite (ring_step_abs md _ _ _ _ Hd). unfold abs_next, conc.
+    destruct (abs_step md (fst (abs_run md n l)) (snd (abs_run md n l)) (fst cl) (snd cl)) as [[cs' b'] a0].
+    reflexivity.
+Qed.
+
+(* ---------- read-out side: oldest first, blanks in front ---------- *)
+Definition window (b : nat) (cs : list coff) : list (option coff) := repeat None b ++ map Some cs.
+Definition asc (cs : list coff) : Prop := StronglySorted Z.lt (map co_order cs).
+
+Lemma rev_repeat {A} (x : A) k : rev (repeat x k) = repeat x k.
+Proof. induction k as [|k IH]; [reflexivity|]. rewrite repeat_snoc at 2. cbn [repeat rev]. rewrite IH. reflexivity. Qed.
+
+Lemma readout_conc cs b : readout (map Some cs ++ repeat None b) = window b (rev cs).
+Proof. unfold readout, window. rewrite rev_app_distr, rev_repeat, map_rev. reflexivity. Qed.
+
+Lemma readout_window_inv r b cs : readout r = window b cs -> r = map Some (rev cs) ++ repeat None b.
+Proof.
+  unfold readout, window. intros H. rewrite <- (rev_involutive r), H, rev_app_distr, rev_repeat, map_rev. reflexivity.
+Qed.
+
+Lemma SS_snoc l a : StronglySorted Z.lt l -> Forall (fun x => x < a) l -> StronglySorted Z.lt (l ++ [a]).
+Proof.
+  induction l as [|x l IH]; cbn [app]; intros Hs Ha; [repeat constructor|].
+  inversion Hs as [|? ? Hs' Hx]; subst. inversion Ha as [|? ? Hxa Ha']; subst.
+  constructor; [apply IH; assumption|]. apply Forall_app. split; [exact Hx|repeat constructor; exact Hxa].
+Qed.
+
+Lemma desc_asc_rev cs : desc cs -> asc (rev cs).
+Proof.
+  unfold asc. induction cs as [|c cs IH]; intros Hd; [constructor|].
+  cbn [rev]. rewrite map_app. cbn [map]. apply SS_snoc; [apply IH; eapply desc_tail; exact Hd|].
+  rewrite Forall_forall. intros o Ho. apply in_map_iff in Ho. destruct Ho as (x & <- & Hx).
+  apply in_rev in Hx. eapply desc_head_gt; eauto.
+Qed.
+
+Lemma SS_app_inv l1 l2 : StronglySorted Z.lt (l1 ++ l2) ->
+  StronglySorted Z.lt l1 /\ StronglySorted Z.lt l2 /\ (forall a b, In a l1 -> In b l2 -> a < b).
+Proof.
+  induction l1 as [|x l1 IH]; cbn [app]; intros H.
+  - repeat split; [constructor|exact H|intros a b []].
+  - inversion H as [|? ? Hs Hx]; subst. destruct (IH Hs) as (H1 & H2 & H3). rewrite Forall_forall in Hx.
+    repeat split; [constructor; [exact H1|]|exact H2|].
+    + rewrite Forall_forall. intros y Hy. apply Hx, in_or_app. left; exact Hy.
+    + intros a b [<-|Ha] Hb; [apply Hx, in_or_app; right; exact Hb|apply H3; assumption].
+Qed.
+
+Lemma asc_desc_rev cs : asc cs -> desc (rev cs).
+Proof.
+  unfold asc. induction cs as [|c cs IH]; intros Ha; [constructor|].
+  cbn [map] in Ha. inversion Ha as [|? ? Hs Hc]; subst. cbn [rev].
+  apply desc_app; [apply IH; exact Hs|repeat constructor|].
+  intros a b Hin [<-|[]]. apply in_rev in Hin. rewrite Forall_forall in Hc.
+  apply Hc. apply in_map. exact Hin.
+Qed.
+
+(* window_shape, for every ring size, minimum distance and sequence of arrivals *)
+Theorem run_window_shape md n l :
+  exists b cs, readout (ring_run md n l) = window b cs /\ (b + length cs = n)%nat /\ asc cs.
+Proof.
+  destruct (run_refines md n l) as (Hd & Hlen & Heq).
+  exists (snd (abs_run md n l)), (rev (fst (abs_run md n l))).
+  rewrite Heq. unfold conc. rewrite readout_conc, rev_length. repeat split; [lia|apply desc_asc_rev; exact Hd].
+Qed.
+
+(* the invariant itself, one step: a ring with a well-shaped read-out keeps it *)
+Theorem step_window_shape md r c lag b cs :
+  readout r = window b cs -> asc cs ->
+  exists b' cs', readout (fst (ring_step md r c lag)) = window b' cs' /\ (b' + length cs' = b + length cs)%nat /\ asc cs'.
+Proof.
+  intros Hr Ha. apply readout_window_inv in Hr. subst r.
+  pose proof (asc_desc_rev _ Ha) as Hd. rewrite (ring_step_abs md _ _ _ _ Hd).
+  destruct (abs_step md (rev cs) b c lag) as [[cs' b'] a0] eqn:E. cbn [fst].
+  destruct (abs_step_shape _ _ _ _ _ _ _ _ Hd E) as [Hd' Hlen]. rewrite rev_length in Hlen.
+  exists b', (rev cs'). rewrite readout_conc, rev_length. repeat split; [lia|apply desc_asc_rev; exact Hd'].
+Qed.
+
+Lemma asc_NoDup cs : asc cs -> NoDup (map co_order cs).
+Proof.
+  unfold asc. generalize (map co_order cs). intros l H. induction H as [|a l Hs IH Ha]; constructor; [|exact IH].
+  intros Hin. rewrite Forall_forall in Ha. specialize (Ha a Hin). lia.
+Qed.
+
+(* ---------- window_newest_last ---------- *)
+Definition omax (o : option Z) (x : Z) : option Z := Some (match o with None => x | Some m => Z.max m x end).
+Definition max_order (l : list (commit * Z)) : option Z := fold_left (fun o cl => omax o (cm_order (fst cl))) l None.
+
+Lemma max_order_spec l :
+  match max_order l with
+  | None => l = []
+  | Some m => (exists cl, In cl l /\ cm_order (fst cl) = m) /\ (forall cl, In cl l -> cm_order (fst cl) <= m)
+  end.
+Proof.
+  unfold max_order. induction l as [|cl l IH] using rev_ind; [reflexivity|].
+  rewrite fold_left_app. cbn [fold_left omax].
+  destruct (fold_left (fun o cl0 => omax o (cm_order (fst cl0))) l None) as [m|].
+  - destruct IH as [(w & Hw & Ew) Hub]. split.
+    + destruct (Z.max_spec m (cm_order (fst cl))) as [[_ ->]|[_ ->]].
+      * exists cl. split; [apply in_or_app; right; left; reflexivity|reflexivity].
+      * exists w. split; [apply in_or_app; left; exact Hw|exact Ew].
+    + intros x Hx. apply in_app_or in Hx. destruct Hx as [Hx|[<-|[]]]; [specialize (Hub x Hx)|]; lia.
+  - subst l. split; [exists cl; split; [left; reflexivity|reflexivity]|]. intros x [<-|[]]. lia.
+Qed.
+
+Lemma abs_run_top md n l : (1 <= n)%nat -> top (fst (abs_run md n l)) = max_order l.
+Proof.
+  intros Hn. induction l as [|cl l IH] using rev_ind; [reflexivity|].
+  destruct (run_refines md n l) as (Hd & Hlen & _).
+  rewrite abs_run_snoc. unfold max_order. rewrite fold_left_app. cbn [fold_left]. fold (max_order l). rewrite <- IH.
+  unfold abs_next. destruct (abs_step md (fst (abs_run md n l)) (snd (abs_run md n l)) (fst cl) (snd cl)) as [[cs' b'] a0] eqn:E.
+  assert (Hl : (1 <= length (fst (abs_run md n l)) + snd (abs_run md n l))%nat) by lia.
+  cbn [fst]. rewrite (abs_step_top _ _ _ _ _ _ _ _ Hd Hl E). reflexivity.
+Qed.
+
+Lemma last_rev_hd {A} (l : list A) d : last (rev l) d = hd d l.
+Proof. destruct l as [|a l]; [reflexivity|]. cbn [rev hd]. apply last_last. Qed.
+
+Theorem run_newest_last md n l :
+  (1 <= n)%nat -> l <> [] ->
+  exists k, last (readout (ring_run md n l)) None = Some k /\
+            (exists cl, In cl l /\ cm_order (fst cl) = co_order k) /\
+            (forall cl, In cl l -> cm_order (fst cl) <= co_order k).
+Proof.
+  intros Hn Hne. destruct (run_refines md n l) as (_ & _ & Heq).
+  pose proof (abs_run_top md n l Hn) as Ht. pose proof (max_order_spec l) as Hm.
+  rewrite Heq. unfold readout. rewrite last_rev_hd. unfold conc.
+  destruct (fst (abs_run md n l)) as [|k cs]; cbn [top] in Ht; rewrite <- Ht in Hm; [contradiction|].
+  exists k. split; [reflexivity|exact Hm].
+Qed.
+
+(* ---------- merge_spec and its complement, on the read-out ---------- *)
+Definition lag_of (hi : list coff) (lag : Z) : option Z := match hi with [] => Some lag | _ => None end.
+Definition is_nil {A} (l : list A) : bool := match l with [] => true | _ => false end.
+
+Lemma lag_of_rev hi lag : match rev hi with [] => Some lag | _ => None end = lag_of hi lag.
+Proof. destruct hi as [|h hi]; [reflexivity|]. cbn [rev lag_of]. destruct (rev hi); reflexivity. Qed.
+
+Lemma is_nil_rev {A} (hi : list A) : match rev hi with [] => true | _ => false end = is_nil hi.
+Proof. destruct hi as [|h hi]; [reflexivity|]. cbn [rev is_nil]. destruct (rev hi); reflexivity. Qed.
+
+Lemma removelast_rev {A} (l : list A) : removelast (rev l) = rev (tl l).
+Proof. destruct l as [|a l]; [reflexivity|]. cbn [rev tl]. apply removelast_last. Qed.
+
+(* The stored commits (oldest first) are lo ++ pv :: hi, pv is the commit just before c in the log among them, and
+   c is closer to pv than the minimum distance: pv's slot takes c's offset and log position and keeps pv's
+   timestamp; no slot is taken, nothing else moves.  The lag field is set only when c is the newest. *)
+Theorem step_merge md r c lag b lo pv hi :
+  readout r = window b (lo ++ pv :: hi) -> asc (lo ++ pv :: hi) ->
+  co_order pv < cm_order c -> Forall (above (cm_order c)) hi ->
+  merges md pv c = true ->
+  readout (fst (ring_step md r c lag)) = window b (lo ++ merged pv c (lag_of hi lag) :: hi) /\
+  snd (ring_step md r c lag) = is_nil hi.
+Proof.
+  intros Hr Ha Hlt Hhi Hm. apply readout_window_inv in Hr. subst r.
+  pose proof (asc_desc_rev _ Ha) as Hd. rewrite (ring_step_abs md _ _ _ _ Hd).
+  assert (Er : rev (lo ++ pv :: hi) = rev hi ++ pv :: rev lo).
+  { rewrite rev_app_distr. cbn [rev]. rewrite <- app_assoc. reflexivity. }
+  assert (Es : split_at (cm_order c) (rev (lo ++ pv :: hi)) = (rev hi, pv :: rev lo)).
+  { rewrite Er. apply split_at_spec; [apply Forall_rev; exact Hhi|lia]. }
+  rewrite (abs_step_merge md _ b c lag _ _ _ Es Hlt Hm). cbn [fst snd].
+  rewrite readout_conc, lag_of_rev, is_nil_rev. split; [|reflexivity].
+  f_equal. rewrite rev_app_distr. cbn [rev]. rewrite !rev_involutive, <- app_assoc. reflexivity.
+Qed.
+
+(* The stored commits are lo ++ hi with lo earlier and hi later in the log than c (so c's position is not stored),
+   and c does not merge into the last commit of lo (or lo is empty): c takes a slot of its own -- a free one if
+   there is one, otherwise the oldest commit is pushed out; a commit older than a full window is ignored. *)
+Theorem step_no_merge md r c lag b lo hi :
+  readout r = window b (lo ++ hi) -> asc (lo ++ hi) ->
+  Forall (fun x => co_order x < cm_order c) lo -> Forall (above (cm_order c)) hi ->
+  (forall lo0 pv, lo = lo0 ++ [pv] -> merges md pv c = false) ->
+  readout (fst (ring_step md r c lag)) =
+    match b, lo with
+    | S b', _ => window b' (lo ++ fresh c (lag_of hi lag) :: hi)
+    | O, [] => window O hi
+    | O, _ :: lo' => window O (lo' ++ fresh c (lag_of hi lag) :: hi)
+    end.
+Proof.
+  intros Hr Ha Hlo Hhi Hm. apply readout_window_inv in Hr. subst r.
+  pose proof (asc_desc_rev _ Ha) as Hd. rewrite (ring_step_abs md _ _ _ _ Hd).
+  assert (Er : rev (lo ++ hi) = rev hi ++ rev lo) by apply rev_app_distr.
+  assert (Es : split_at (cm_order c) (rev (lo ++ hi)) = (rev hi, rev lo)).
+  { rewrite Er. apply split_at_spec; [apply Forall_rev; exact Hhi|].
+    destruct (rev lo) as [|x rl] eqn:E; [exact I|].
+    assert (Hx : In x lo) by (apply in_rev; rewrite E; left; reflexivity).
+    rewrite Forall_forall in Hlo. specialize (Hlo x Hx). lia. }
+  assert (Hpre : match rev lo with [] => True | pv :: _ => co_order pv < cm_order c /\ merges md pv c = false end).
+  { destruct (rev lo) as [|x rl] eqn:E; [exact I|].
+    assert (El : lo = rev rl ++ [x]) by (rewrite <- (rev_involutive lo), E; reflexivity).
+    split; [|eapply Hm; exact El].
+    rewrite Forall_forall in Hlo. apply Hlo. rewrite El. apply in_or_app. right. left. reflexivity. }
+  rewrite (abs_step_no_merge md _ b c lag _ _ Es Hpre). rewrite lag_of_rev.
+  destruct b as [|b'].
+  - destruct lo as [|x lo']; [cbn [rev]; cbn [fst]; rewrite readout_conc, Er, rev_app_distr, !rev_involutive; reflexivity|].
+    destruct (rev (x :: lo')) as [|y rl] eqn:E.
+    { exfalso. apply (f_equal (@length _)) in E. rewrite rev_length in E. discriminate. }
+    cbn [fst]. rewrite readout_conc. f_equal. rewrite <- E, removelast_rev. cbn [tl].
+    rewrite rev_app_distr. cbn [rev]. rewrite !rev_involutive, <- app_assoc. reflexivity.
+  - cbn [fst]. rewrite readout_conc. f_equal. rewrite rev_app_distr. cbn [rev]. rewrite !rev_involutive, <- app_assoc. reflexivity.
+Qed.
+
+(* a log position that is already stored is ignored (no duplicates) *)
+Theorem step_duplicate md r c lag b cs x :
+  readout r = window b cs -> asc cs -> In x cs -> co_order x = cm_order c ->
+  ring_step md r c lag = (r, false).
+Proof.
+  intros Hr Ha Hin Hx. apply readout_window_inv in Hr. subst r.
+  pose proof (asc_desc_rev _ Ha) as Hd. rewrite (ring_step_abs md _ _ _ _ Hd).
+  apply in_rev in Hin. destruct (in_split _ _ Hin) as (hi & lo & E). rewrite E in *.
+  unfold abs_step. rewrite split_at_spec; [| |lia].
+  - rewrite Hx, Z.eqb_refl. reflexivity.
+  - eapply Forall_impl; [|apply (desc_all_gt hi x lo Hd)]. intros y Hy; unfold above; cbn beta in Hy; lia.
+Qed.
+
+(* ---------- window_topN: with minimum distance 0 and timestamps that do not decrease along the log ---------- *)
+(* the commits seen, newest first by log position, one per log position (the first to arrive with that position) *)
 Definition sorted_set (l : list commit) : list triple := fold_left (fun acc c => insert_desc (pc c) acc) l [].
 
-(* timestamps do not decrease along the log *)
 Definition ts_monotone (l : list commit) : Prop :=
   forall c1 c2, In c1 l -> In c2 l -> cm_order c1 < cm_order c2 -> cm_ts c1 <= cm_ts c2.
+(* the int64 subtraction of two timestamps does not wrap (true of any timestamps of one sign, in particular of
+   everything the storage module lets through its too-old test with a clock later than expire-group) *)
+Definition ts_span_ok (l : list commit) : Prop :=
+  forall c1 c2, In c1 l -> In c2 l -> in_i64 (cm_ts c2 - cm_ts c1).
+Definition order_functional (l : list commit) : Prop :=
+  forall c1 c2, In c1 l -> In c2 l -> cm_order c1 = cm_order c2 -> c1 = c2.
 
-Lemma merges_zero_false pv c :
-  ts_ok (co_ts pv) -> ts_ok (cm_ts c) -> co_ts pv <= cm_ts c -> merges 0 pv c = false.
+Lemma ts_span_ok_nonneg l : Forall (fun c => 0 <= cm_ts c < two63) l -> ts_span_ok l.
 Proof.
-  unfold ts_ok, merges. intros Hp Hc Hle.
-  assert (E1 : sub64 (cm_ts c) (co_ts pv) = cm_ts c - co_ts pv) by (apply wrap64_id; unfold in_i64, two63; lia).
+  intros H c1 c2 H1 H2. rewrite Forall_forall in H. pose proof (H c1 H1). pose proof (H c2 H2).
+  unfold in_i64, two63 in *. lia.
+Qed.
+
+Lemma ts_span_ok_small l : Forall (fun c => ts_ok (cm_ts c)) l -> ts_span_ok l.
+Proof.
+  intros H c1 c2 H1 H2. rewrite Forall_forall in H. pose proof (H c1 H1). pose proof (H c2 H2).
+  unfold in_i64, two63, ts_ok in *. lia.
+Qed.
+
+Lemma merges_zero_false pv c : in_i64 (cm_ts c - co_ts pv) -> co_ts pv <= cm_ts c -> merges 0 pv c = false.
+Proof.
+  unfold merges. intros Hr Hle.
+  assert (E1 : sub64 (cm_ts c) (co_ts pv) = cm_ts c - co_ts pv) by (apply wrap64_id; exact Hr).
   rewrite E1. change (mul64 0 1000) with 0. destruct (co_order pv <? cm_order c); [|reflexivity].
   cbn [andb]. apply Z.ltb_ge. lia.
 Qed.
 
-Section TopN.
-  Variable n : nat.
-  Variable l : list (commit * Z).            (* arrivals, each with the lag the caller would attach on append *)
-  Hypothesis Hmono : ts_monotone (map fst l).
-  Hypothesis Hts : Forall (fun c => ts_ok (cm_ts c)) (map fst l).
+Definition sdesc (S : list triple) : Prop := StronglySorted (fun a b => t_order b < t_order a) S.
 
-  Lemma abs_run_inv k :
-    (k <= length l)%nat ->
-    let s := fold_left (fun (s : abs_state) (cl : commit * Z) =>
-               let '(cs', b', _) := abs_step 0 (fst s) (snd s) (fst cl) (snd cl) in (cs', b')) (firstn k l) ([], n) in
-    desc (fst s) /\ (length (fst s) + snd s = n)%nat /\
-    (forall x, In x (fst s) -> exists c, In c (map fst (firstn k l)) /\ proj x = pc c) /\
-    map proj (fst s) = firstn n (sorted_set (map fst (firstn k l))).
-  Proof.
-    induction k as [|k IH]; intros Hk.
-    - cbn. repeat split; [constructor|intros x []|rewrite firstn_nil; reflexivity].
-    - assert (Hk' : (k < length l)%nat) by lia.
-      destruct (nth_error l k) as [cl|] eqn:En; [|apply nth_error_None in En; lia].
-      assert (Ef : firstn (S k) l = firstn k l ++ [cl]).
-      { clear - En. revert k En. induction l as [|a l' IHl]; intros k En; [destruct k; discriminate|].
-        destruct k as [|k]; [cbn in En; injection En as ->; reflexivity|].
-        cbn [nth_error] in En. change (firstn (S (S k)) (a :: l')) with (a :: firstn (S k) l').
-        rewrite (IHl k En). reflexivity. }
-      rewrite Ef, fold_left_app. cbn [fold_left].
-      specialize (IH ltac:(lia)). cbn zeta in IH.
-      set (s := fold_left _ (firstn k l) ([], n)) in *.
-      destruct IH as (Hd & Hlen & Hsub & Htop).
-      destruct (abs_step 0 (fst s) (snd s) (fst cl) (snd cl)) as [[cs' b'] a0] eqn:Est.
-      cbn [fst snd].
-      destruct (abs_step_shape _ _ _ _ _ _ _ _ Hd Est) as [Hd' Hlen'].
-      assert (Hin : In (fst cl) (map fst l)).
-      { apply in_map. eapply nth_error_In; exact En. }
-      assert (Hsubl : forall c, In c (map fst (firstn k l)) -> In c (map fst l)).
-      { intros c Hc. apply in_map_iff in Hc. destruct Hc as (y & <- & Hy). apply in_map. eapply firstn_In_; exact Hy. }
-      assert (Hnm : forall pv, In pv (fst s) -> co_order pv < cm_order (fst cl) -> merges 0 pv (fst cl) = false).
-      { intros pv Hpv Hlt. destruct (Hsub pv Hpv) as (c0 & Hc0 & Hp).
-        unfold proj, pc in Hp. injection Hp as Ho Hor Ht.
-        rewrite Forall_forall in Hts.
-        apply merges_zero_false; [rewrite Ht; apply Hts, Hsubl, Hc0|apply Hts, Hin|].
-        rewrite Ht. apply Hmono; [apply Hsubl, Hc0|exact Hin|lia]. }
-      pose proof (abs_step_topn _ _ _ _ _ _ _ _ Hd Hnm Est) as Hstep.
-      repeat split; [exact Hd'|lia| |].
-      + intros x Hx.
-        assert (Hpx : In (proj x) (map proj cs')) by (apply in_map; exact Hx).
-        rewrite Hstep in Hpx. apply firstn_In_ in Hpx.
-        rewrite map_app. cbn [map].
-        assert (Hii : forall v S y, In y (insert_desc v S) -> y = v \/ In y S).
-        { clear. intros v S. induction S as [|a S IH]; intros y; cbn [insert_desc].
-          - intros [<-|[]]; auto.
-          - destruct (t_order a <? t_order v); [intros [<-|H]; auto|].
-            destruct (t_order a =? t_order v); [auto|]. intros [<-|H]; [right; left; reflexivity|].
-            destruct (IH y H); auto. right; right; assumption. }
-        destruct (Hii _ _ _ Hpx) as [E|Hold].
-        * exists (fst cl). split; [apply in_or_app; right; left; reflexivity|exact E].
-        * apply in_map_iff in Hold. destruct Hold as (y & Ey & Hy). destruct (Hsub y Hy) as (c0 & Hc0 & Hp).
-          exists c0. split; [apply in_or_app; left; exact Hc0|congruence].
-      + rewrite Hstep, Htop, Hlen, map_app. cbn [map]. unfold sorted_set. rewrite fold_left_app. cbn [fold_left].
-        apply firstn_insert_firstn.
-  Qed.
+Lemma insert_desc_in v S y : In y (insert_desc v S) -> y = v \/ In y S.
+Proof.
+  induction S as [|a S IH]; cbn [insert_desc].
+  - intros [<-|[]]; auto.
+  - destruct (t_order a <? t_order v); [intros [<-|H]; auto|].
+    destruct (t_order a =? t_order v); [auto|]. intros [<-|H]; [right; left; reflexivity|].
+    destruct (IH H); auto. right; right; assumption.
+Qed.
 
-  (* window_topN *)
-  Theorem window_topn :
-    map proj (fst (abs_run 0 n l)) = firstn n (sorted_set (map fst l)).
-  Proof.
-    pose proof (abs_run_inv (length l) (le_n _)) as H. cbn zeta in H. rewrite firstn_all in H.
-    destruct H as (_ & _ & _ & H). exact H.
-  Qed.
-End TopN.
+Lemma insert_desc_keeps v S y : In y S -> In y (insert_desc v S).
+Proof.
+  induction S as [|a S IH]; cbn [insert_desc]; [intros []|].
+  destruct (t_order a <? t_order v); [intros H; right; exact H|].
+  destruct (t_order a =? t_order v); [auto|]. intros [<-|H]; [left; reflexivity|right; apply IH; exact H].
+Qed.
+
+Lemma insert_desc_has v S : exists y, In y (insert_desc v S) /\ t_order y = t_order v.
+Proof.
+  induction S as [|a S IH]; cbn [insert_desc]; [exists v; split; [left|]; reflexivity|].
+  destruct (t_order a <? t_order v); [exists v; split; [left|]; reflexivity|].
+  destruct (t_order a =? t_order v) eqn:E; [apply Z.eqb_eq in E; exists a; split; [left; reflexivity|exact E]|].
+  destruct IH as (y & Hy & Ey). exists y. split; [right; exact Hy|exact Ey].
+Qed.
+
+Lemma insert_desc_sorted v S : sdesc S -> sdesc (insert_desc v S).
+Proof.
+  unfold sdesc. induction S as [|a S IH]; cbn [insert_desc]; intros Hs; [repeat constructor|].
+  inversion Hs as [|? ? Hs' Ha]; subst.
+  destruct (t_order a <? t_order v) eqn:E1.
+  - apply Z.ltb_lt in E1. constructor; [exact Hs|]. constructor; [exact E1|].
+    eapply Forall_impl; [|exact Ha]. intros b Hb; cbn beta in Hb; lia.
+  - apply Z.ltb_ge in E1. destruct (t_order a =? t_order v) eqn:E2; [exact Hs|]. apply Z.eqb_neq in E2.
+    constructor; [apply IH; exact Hs'|]. rewrite Forall_forall in *. intros y Hy.
+    destruct (insert_desc_in _ _ _ Hy) as [->|Hin]; [lia|apply Ha; exact Hin].
+Qed.
+
+(* a new element enters only if no stored element has its log position *)
+Lemma insert_desc_new v S y :
+  sdesc S -> In y (insert_desc v S) -> In y S \/ (y = v /\ forall z, In z S -> t_order z <> t_order v).
+Proof.
+  unfold sdesc. induction S as [|a S IH]; cbn [insert_desc]; intros Hs.
+  - intros [<-|[]]. right. split; [reflexivity|intros z []].
+  - inversion Hs as [|? ? Hs' Ha]; subst. rewrite Forall_forall in Ha.
+    destruct (t_order a <? t_order v) eqn:E1.
+    + apply Z.ltb_lt in E1. intros [<-|H]; [|left; exact H]. right. split; [reflexivity|].
+      intros z [<-|Hz]; [lia|specialize (Ha z Hz); lia].
+    + apply Z.ltb_ge in E1. destruct (t_order a =? t_order v) eqn:E2; [intros H; left; exact H|]. apply Z.eqb_neq in E2.
+      intros [<-|H]; [left; left; reflexivity|].
+      destruct (IH Hs' H) as [Hin|[-> Hno]]; [left; right; exact Hin|].
+      right. split; [reflexivity|]. intros z [<-|Hz]; [exact E2|apply Hno; exact Hz].
+Qed.
+
+Lemma sorted_set_snoc l c : sorted_set (l ++ [c]) = insert_desc (pc c) (sorted_set l).
+Proof. unfold sorted_set. rewrite fold_left_app. reflexivity. Qed.
+
+Lemma sorted_set_sorted l : sdesc (sorted_set l).
+Proof.
+  induction l as [|c l IH] using rev_ind; [constructor|]. rewrite sorted_set_snoc. apply insert_desc_sorted; exact IH.
+Qed.
+
+Lemma sorted_set_in l x : In x (sorted_set l) -> exists c, In c l /\ pc c = x.
+Proof.
+  induction l as [|c l IH] using rev_ind; [intros []|]. rewrite sorted_set_snoc. intros H.
+  destruct (insert_desc_in _ _ _ H) as [->|Hin].
+  - exists c. split; [apply in_or_app; right; left; reflexivity|reflexivity].
+  - destruct (IH Hin) as (c0 & Hc0 & E). exists c0. split; [apply in_or_app; left; exact Hc0|exact E].
+Qed.
+
+Lemma sorted_set_has l c : In c l -> exists x, In x (sorted_set l) /\ t_order x = cm_order c.
+Proof.
+  induction l as [|c0 l IH] using rev_ind; [intros []|]. rewrite sorted_set_snoc. intros H.
+  apply in_app_or in H. destruct H as [H|[<-|[]]].
+  - destruct (IH H) as (x & Hx & Ex). exists x. split; [apply insert_desc_keeps; exact Hx|exact Ex].
+  - apply (insert_desc_has (pc c0)).
+Qed.
+
+(* which payload is kept for a log position: that of the first commit to arrive with it *)
+Theorem sorted_set_first l x :
+  In x (sorted_set l) <->
+  exists pre c post, l = pre ++ c :: post /\ pc c = x /\ (forall c', In c' pre -> cm_order c' <> cm_order c).
+Proof.
+  induction l as [|c0 l IH] using rev_ind.
+  - split; [intros []|]. intros (pre & c & post & E & _). destruct pre; discriminate.
+  - rewrite sorted_set_snoc. split.
+    + intros H. destruct (insert_desc_new _ _ _ (sorted_set_sorted l) H) as [Hin|[-> Hno]].
+      * apply IH in Hin. destruct Hin as (pre & c & post & -> & E & Hpre).
+        exists pre, c, (post ++ [c0]). split; [rewrite <- app_assoc; reflexivity|]. split; assumption.
+      * exists l, c0, []. split; [reflexivity|]. split; [reflexivity|].
+        intros c' Hc' Eo. destruct (sorted_set_has l c' Hc') as (z & Hz & Ez).
+        apply (Hno z Hz). rewrite Ez, Eo. reflexivity.
+    + intros (pre & c & post & E & Ex & Hpre).
+      destruct post as [|p post'] using rev_ind.
+      * apply app_inj_tail in E. destruct E as [-> ->].
+        destruct (insert_desc_has (pc c) (sorted_set pre)) as (y & Hy & Ey).
+        destruct (insert_desc_in _ _ _ Hy) as [->|Hin]; [rewrite <- Ex; exact Hy|].
+        exfalso. destruct (sorted_set_in _ _ Hin) as (c' & Hc' & E'). apply (Hpre c' Hc').
+        rewrite <- E' in Ey. exact Ey.
+      * clear IHpost'. rewrite app_comm_cons, app_assoc in E. apply app_inj_tail in E. destruct E as [-> ->].
+        apply insert_desc_keeps. apply IH. exists pre, c, post'. auto.
+Qed.
+
+Lemma sorted_set_mem l x : order_functional l -> (In x (sorted_set l) <-> exists c, In c l /\ pc c = x).
+Proof.
+  intros Hf. split; [apply sorted_set_in|]. intros (c & Hc & <-).
+  destruct (sorted_set_has l c Hc) as (y & Hy & Ey).
+  destruct (sorted_set_in _ _ Hy) as (c' & Hc' & <-).
+  rewrite (Hf c c' Hc Hc' (eq_sym Ey)). exact Hy.
+Qed.
+
+Lemma sdesc_unique S1 S2 : sdesc S1 -> sdesc S2 -> (forall x, In x S1 <-> In x S2) -> S1 = S2.
+Proof.
+  unfold sdesc. revert S2. induction S1 as [|a S1 IH]; intros S2 H1 H2 Hm.
+  - destruct S2 as [|b S2]; [reflexivity|]. exfalso. apply (Hm b). left; reflexivity.
+  - destruct S2 as [|b S2]; [exfalso; apply (Hm a); left; reflexivity|].
+    inversion H1 as [|? ? H1' Ha]; subst. inversion H2 as [|? ? H2' Hb]; subst.
+    rewrite Forall_forall in Ha, Hb.
+    assert (Eab : a = b).
+    { destruct (proj1 (Hm a) (or_introl eq_refl)) as [E|Hin]; [auto|].
+      destruct (proj2 (Hm b) (or_introl eq_refl)) as [E|Hin']; [auto|].
+      specialize (Ha b Hin'). specialize (Hb a Hin). lia. }
+    subst b. f_equal. apply IH; [exact H1'|exact H2'|].
+    intros x. split; intros Hx.
+    + destruct (proj1 (Hm x) (or_intror Hx)) as [E|Hin]; [|exact Hin]. subst x. specialize (Ha a Hx). lia.
+    + destruct (proj2 (Hm x) (or_intror Hx)) as [E|Hin]; [|exact Hin]. subst x. specialize (Hb a Hx). lia.
+Qed.
+
+(* when a log position determines the commit, the sorted set is a function of the set of commits seen *)
+Theorem sorted_set_set l1 l2 :
+  order_functional l1 -> (forall c, In c l1 <-> In c l2) -> sorted_set l1 = sorted_set l2.
+Proof.
+  intros Hf Hs.
+  assert (Hf2 : order_functional l2).
+  { intros c1 c2 H1 H2. apply Hf; apply Hs; assumption. }
+  apply sdesc_unique; [apply sorted_set_sorted|apply sorted_set_sorted|].
+  intros x. rewrite (sorted_set_mem l1 x Hf), (sorted_set_mem l2 x Hf2).
+  split; intros (c & Hc & E); exists c; (split; [apply Hs; exact Hc|exact E]).
+Qed.
+
+Lemma ts_monotone_prefix l x : ts_monotone (l ++ [x]) -> ts_monotone l.
+Proof. intros H c1 c2 H1 H2. apply H; apply in_or_app; left; assumption. Qed.
+Lemma ts_span_ok_prefix l x : ts_span_ok (l ++ [x]) -> ts_span_ok l.
+Proof. intros H c1 c2 H1 H2. apply H; apply in_or_app; left; assumption. Qed.
+
+Lemma firstn_In_ {A} (x : A) k l : In x (firstn k l) -> In x l.
+Proof.
+  revert k; induction l as [|a l IH]; intros k; [rewrite firstn_nil; auto|].
+  destruct k as [|k]; [intros []|]. cbn [firstn]. intros [<-|H]; [left; reflexivity|right; eapply IH; exact H].
+Qed.
+
+Lemma abs_run_topn n l :
+  ts_monotone (map fst l) -> ts_span_ok (map fst l) ->
+  (forall x, In x (fst (abs_run 0 n l)) -> exists c, In c (map fst l) /\ proj x = pc c) /\
+  map proj (fst (abs_run 0 n l)) = firstn n (sorted_set (map fst l)).
+Proof.
+  induction l as [|cl l IH] using rev_ind; intros Hmono Hspan.
+  - cbn. split; [intros x []|rewrite firstn_nil; reflexivity].
+  - rewrite map_app in Hmono, Hspan. cbn [map] in Hmono, Hspan.
+    destruct (IH (ts_monotone_prefix _ _ Hmono) (ts_span_ok_prefix _ _ Hspan)) as [Hsub Htop].
+    destruct (run_refines 0 n l) as (Hd & Hlen & _).
+    rewrite abs_run_snoc, map_app. cbn [map]. unfold abs_next.
+    set (s := abs_run 0 n l) in *.
+    destruct (abs_step 0 (fst s) (snd s) (fst cl) (snd cl)) as [[cs' b'] a0] eqn:Est. cbn [fst].
+    assert (Hin : In (fst cl) (map fst l ++ [fst cl])) by (apply in_or_app; right; left; reflexivity).
+    assert (Hnm : forall pv, In pv (fst s) -> co_order pv < cm_order (fst cl) -> merges 0 pv (fst cl) = false).
+    { intros pv Hpv Hlt. destruct (Hsub pv Hpv) as (c0 & Hc0 & Hp).
+      unfold proj, pc in Hp. injection Hp as Ho Hor Ht.
+      assert (Hc0' : In c0 (map fst l ++ [fst cl])) by (apply in_or_app; left; exact Hc0).
+      apply merges_zero_false; rewrite Ht; [apply Hspan; assumption|apply Hmono; [assumption|assumption|lia]]. }
+    pose proof (abs_step_topn _ _ _ _ _ _ _ _ Hd Hnm Est) as Hstep.
+    split.
+    + intros x Hx.
+      assert (Hpx : In (proj x) (map proj cs')) by (apply in_map; exact Hx).
+      rewrite Hstep in Hpx. apply firstn_In_ in Hpx.
+      destruct (insert_desc_in _ _ _ Hpx) as [E|Hold].
+      * exists (fst cl). split; [exact Hin|exact E].
+      * apply in_map_iff in Hold. destruct Hold as (y & Ey & Hy). destruct (Hsub y Hy) as (c0 & Hc0 & Hp).
+        exists c0. split; [apply in_or_app; left; exact Hc0|congruence].
+    + rewrite Hstep, Htop, Hlen, sorted_set_snoc. apply firstn_insert_firstn.
+Qed.
+
+Definition stored_proj (r : ring) : list (option triple) := map (option_map proj) (readout r).
+Definition topn (n : nat) (l : list commit) : list triple := firstn n (sorted_set l).
+
+Lemma map_option_window b cs : map (option_map proj) (window b cs) = repeat None b ++ map Some (map proj cs).
+Proof.
+  unfold window. rewrite map_app, map_map. f_equal.
+  - induction b as [|b IH]; [reflexivity|]. cbn [repeat map option_map]. rewrite IH. reflexivity.
+  - rewrite map_map. reflexivity.
+Qed.
+
+(* window_topN *)
+Theorem run_topn n l :
+  ts_monotone (map fst l) -> ts_span_ok (map fst l) ->
+  stored_proj (ring_run 0 n l) =
+  repeat None (n - length (topn n (map fst l))) ++ map Some (rev (topn n (map fst l))).
+Proof.
+  intros Hmono Hspan. destruct (abs_run_topn n l Hmono Hspan) as [_ Htop].
+  destruct (run_refines 0 n l) as (_ & Hlen & Heq).
+  unfold stored_proj, topn. rewrite Heq. unfold conc. rewrite readout_conc, map_option_window.
+  rewrite map_rev, Htop. f_equal. f_equal.
+  rewrite <- Htop, map_length. lia.
+Qed.
+
+(* window_arrival_independent *)
+Theorem run_arrival_independent n l1 l2 :
+  ts_monotone (map fst l1) -> ts_span_ok (map fst l1) -> order_functional (map fst l1) ->
+  (forall c, In c (map fst l1) <-> In c (map fst l2)) ->
+  stored_proj (ring_run 0 n l1) = stored_proj (ring_run 0 n l2).
+Proof.
+  intros Hmono Hspan Hf Hs.
+  assert (Hmono2 : ts_monotone (map fst l2)) by (intros c1 c2 H1 H2; apply Hmono; apply Hs; assumption).
+  assert (Hspan2 : ts_span_ok (map fst l2)) by (intros c1 c2 H1 H2; apply Hspan; apply Hs; assumption).
+  rewrite (run_topn n l1 Hmono Hspan), (run_topn n l2 Hmono2 Hspan2).
+  unfold topn. rewrite (sorted_set_set _ _ Hf Hs). reflexivity.
+Qed.
+
+(* ---------- the side conditions of the top-N statement are needed ---------- *)
+Definition mk (off order ts : Z) : commit * Z := (mkCommit off order ts, 0).
+
+Ltac two_elems := intros c1 c2 [<-|[<-|[]]] [<-|[<-|[]]]; cbn; unfold in_i64, two63; try lia; try reflexivity; try discriminate.
+
+(* minimum distance > 0: the second commit arrives 1 s after the first and merges into it, but only in log order *)
+Lemma topn_needs_md0_refuted :
+  exists md n l1 l2,
+    0 < md /\ ts_monotone (map fst l1) /\ ts_span_ok (map fst l1) /\ order_functional (map fst l1) /\
+    (forall c, In c (map fst l1) <-> In c (map fst l2)) /\
+    stored_proj (ring_run md n l1) <> stored_proj (ring_run md n l2).
+Proof.
+  exists 5, 3%nat, [mk 100 10 1600000000000; mk 200 20 1600000001000], [mk 200 20 1600000001000; mk 100 10 1600000000000].
+  split; [lia|]. split; [two_elems|]. split; [two_elems|]. split; [two_elems|].
+  split; [intros c; cbn; tauto|]. vm_compute. discriminate.
+Qed.
+
+(* timestamps that decrease along the log: at distance 0 the difference is negative, hence "closer than 0" *)
+Lemma topn_needs_ts_monotone_refuted :
+  exists n l1 l2,
+    ts_span_ok (map fst l1) /\ order_functional (map fst l1) /\
+    (forall c, In c (map fst l1) <-> In c (map fst l2)) /\
+    stored_proj (ring_run 0 n l1) <> stored_proj (ring_run 0 n l2).
+Proof.
+  exists 3%nat, [mk 100 10 1600000005000; mk 200 20 1600000001000], [mk 200 20 1600000001000; mk 100 10 1600000005000].
+  split; [two_elems|]. split; [two_elems|].
+  split; [intros c; cbn; tauto|]. vm_compute. discriminate.
+Qed.
+
+(* timestamps whose int64 difference wraps: 2^63-1 - (-2^63) = -1 in Go *)
+Lemma topn_needs_ts_span_refuted :
+  exists n l1 l2,
+    ts_monotone (map fst l1) /\ order_functional (map fst l1) /\
+    (forall c, In c (map fst l1) <-> In c (map fst l2)) /\
+    stored_proj (ring_run 0 n l1) <> stored_proj (ring_run 0 n l2).
+Proof.
+  exists 3%nat, [mk 100 10 (-9223372036854775808); mk 200 20 9223372036854775807],
+                [mk 200 20 9223372036854775807; mk 100 10 (-9223372036854775808)].
+  split; [two_elems|]. split; [two_elems|].
+  split; [intros c; cbn; tauto|]. vm_compute. discriminate.
+Qed.
+
+(* two different commits claiming one log position: the first to arrive stays *)
+Lemma arrival_needs_order_functional_refuted :
+  exists n l1 l2,
+    ts_monotone (map fst l1) /\ ts_span_ok (map fst l1) /\
+    (forall c, In c (map fst l1) <-> In c (map fst l2)) /\
+    stored_proj (ring_run 0 n l1) <> stored_proj (ring_run 0 n l2).
+Proof.
+  exists 3%nat, [mk 100 10 1600000000000; mk 999 10 1600000000000], [mk 999 10 1600000000000; mk 100 10 1600000000000].
+  split; [two_elems|]. split; [two_elems|].
+  split; [intros c; cbn; tauto|]. vm_compute. discriminate.
+Qed.
+
